@@ -41,6 +41,19 @@ func TestC02(t *testing.T) {
 			return map[string]any{"scenario": "Leave() of the only member while the first join holds its membership lock"}
 		}, "scenario:sole-member-leaves-during-first-join")
 	}
+	// scenario tier: an abandoned leave must not end the node's own maintenance
+	if p := maintenanceContinuesAfterFailedLeave(); p != "" {
+		if len(p) > 13 && p[:13] == "precondition:" {
+			rec.Inconclusive("scenario-precondition")
+			t.Logf("abandoned-leave scenario: %s", p)
+		} else {
+			rec.Fail(t, "not-converged-by-own-maintenance-after-abandoned-leave", map[string]any{"schedule": "ring {1<<44, 2<<44, 3<<44}; 5<<43 joins via 3<<44, its advisory to 2<<44 is held (3<<44 stays locked); 2<<44 tries to leave and runs out of attempts; advisory released; 3<<44 leaves gracefully; 5 s without any harness-driven maintenance round", "problem": p}, "%s", p)
+		}
+	} else {
+		rec.Case(true, "scenario:maintenance-continues-after-abandoned-leave", func() any {
+			return map[string]any{"scenario": "abandoned leave, later change elsewhere in the ring, convergence by the nodes' own periodic tasks only"}
+		}, "scenario:maintenance-continues-after-abandoned-leave")
+	}
 	// schedule-stress tier: overlapping stabilization rounds of one real node while its view changes
 	{
 		rounds := ev.Pick(150000, 600000)
